@@ -28,21 +28,27 @@ structure Frame (c c' : Core) (id : Nat) : Prop where
   other : ∀ j, j ≠ id → c'.rcs[j]? = c.rcs[j]?
   same : ∀ r', c'.rcs[id]? = some r' →
     ∃ r, c.rcs[id]? = some r ∧ r'.key = r.key ∧ r'.val = r.val ∧ r.calls ≤ r'.calls
+  fin : ∀ r r', c.rcs[id]? = some r → c'.rcs[id]? = some r' → r.finDone = true → r'.finDone = true
 
 theorem Frame.refl (c : Core) (id : Nat) : Frame c c id :=
-  ⟨rfl, fun _ _ => rfl, fun r' h => ⟨r', h, rfl, rfl, Nat.le_refl _⟩⟩
+  ⟨rfl, fun _ _ => rfl, fun r' h => ⟨r', h, rfl, rfl, Nat.le_refl _⟩,
+   fun r r' h h' hf => by rw [h] at h'; cases h'; exact hf⟩
 
 theorem Frame.trans {a b c : Core} {id : Nat} (h1 : Frame a b id) (h2 : Frame b c id) : Frame a c id := by
-  refine ⟨h2.len.trans h1.len, fun j hj => (h2.other j hj).trans (h1.other j hj), ?_⟩
-  intro r' hr'
-  obtain ⟨r1, e1, k1, v1, c1⟩ := h2.same r' hr'
-  obtain ⟨r0, e0, k0, v0, c0⟩ := h1.same r1 e1
-  exact ⟨r0, e0, k1.trans k0, v1.trans v0, Nat.le_trans c0 c1⟩
+  refine ⟨h2.len.trans h1.len, fun j hj => (h2.other j hj).trans (h1.other j hj), ?_, ?_⟩
+  · intro r' hr'
+    obtain ⟨r1, e1, k1, v1, c1⟩ := h2.same r' hr'
+    obtain ⟨r0, e0, k0, v0, c0⟩ := h1.same r1 e1
+    exact ⟨r0, e0, k1.trans k0, v1.trans v0, Nat.le_trans c0 c1⟩
+  · intro r r' hr hr' hf
+    obtain ⟨r1, e1, _⟩ := h2.same r' hr'
+    exact h2.fin r1 r' e1 hr' (h1.fin r r1 hr e1 hf)
 
 theorem frame_modify (c : Core) (toks' : List Tok) (id : Nat) (f : RC → RC)
-    (hf : ∀ r, (f r).key = r.key ∧ (f r).val = r.val ∧ r.calls ≤ (f r).calls) :
+    (hf : ∀ r, (f r).key = r.key ∧ (f r).val = r.val ∧ r.calls ≤ (f r).calls)
+    (hfin : ∀ r, r.finDone = true → (f r).finDone = true) :
     Frame c { rcs := c.rcs.modify id f, toks := toks' } id := by
-  refine ⟨by simp, ?_, ?_⟩
+  refine ⟨by simp, ?_, ?_, ?_⟩
   · intro j hj
     simp only [getElem?_modify_eq]
     cases c.rcs[j]? with
@@ -56,12 +62,16 @@ theorem frame_modify (c : Core) (toks' : List Tok) (id : Nat) (f : RC → RC)
       simp only [h, Option.map_some, if_true, Option.some.injEq] at hr'
       subst hr'
       exact ⟨r, rfl, (hf r).1, (hf r).2.1, (hf r).2.2⟩
+  · intro r r' hr hr' hfd
+    simp only [getElem?_modify_eq, hr, Option.map_some, if_true, Option.some.injEq] at hr'
+    subst hr'
+    exact hfin r hfd
 
 theorem frame_newTok (c : Core) (id : Nat) : Frame c (c.newTok id) id :=
-  frame_modify c _ id RC.inc (fun _ => ⟨rfl, rfl, Nat.le_refl _⟩)
+  frame_modify c _ id RC.inc (fun _ => ⟨rfl, rfl, Nat.le_refl _⟩) (fun _ h => h)
 
 theorem frame_fin (c : Core) (id : Nat) : Frame c (c.fin id) id :=
-  frame_modify c _ id RC.finalize (fun r => ⟨by simp, by simp, RC.finalize_calls_ge r⟩)
+  frame_modify c _ id RC.finalize (fun r => ⟨by simp, by simp, RC.finalize_calls_ge r⟩) (fun _ _ => by simp)
 
 theorem frame_release (c : Core) (tok : Nat) (t : Tok) (ht : c.toks[tok]? = some t) :
     Frame c (c.release tok) t.rc := by
@@ -69,7 +79,7 @@ theorem frame_release (c : Core) (tok : Nat) (t : Tok) (ht : c.toks[tok]? = some
   simp only [ht]
   split
   · exact Frame.refl _ _
-  · exact frame_modify c _ t.rc RC.dec (fun r => ⟨by simp, by simp, RC.dec_calls_ge r⟩)
+  · exact frame_modify c _ t.rc RC.dec (fun r => ⟨by simp, by simp, RC.dec_calls_ge r⟩) (fun _ h => by simpa using h)
 
 theorem set_self {α} (l : List α) (i : Nat) (a : α) (h : l[i]? = some a) : l.set i a = l := by
   apply List.ext_getElem?
@@ -419,6 +429,112 @@ theorem XInv.closeLayer {L : List Layer} {T : List Tok} {p : Option Nat} {lid : 
     · exact hne i li h
     · subst h2; rw [hb]; exact e
 
+/-! ## D'. a closed layer's blob reference was released WITH eviction -/
+
+/-- `layer.close` calls `l.blob.done(true)`: the refCounter behind a closed layer's blob closure has
+been finalised (`finalizeOnce` fired), i.e. the blob left the blob cache. -/
+def FInv (L : List Layer) (c : Core) : Prop :=
+  ∀ (i : Nat) (l : Layer) (tk : Tok), L[i]? = some l → l.closed = true → c.toks[l.blobTok]? = some tk →
+    ∃ r, c.rcs[tk.rc]? = some r ∧ r.finDone = true
+
+theorem Frame.finMono {c c' : Core} {id : Nat} (fr : Frame c c' id) {j : Nat} {r : RC}
+    (h : c.rcs[j]? = some r) (hf : r.finDone = true) : ∃ r', c'.rcs[j]? = some r' ∧ r'.finDone = true := by
+  by_cases e : j = id
+  · subst e
+    have hlt : j < c'.rcs.length := by rw [fr.len]; exact (List.getElem_of_getElem? h).1
+    exact ⟨_, List.getElem?_eq_getElem hlt, fr.fin r _ h (List.getElem?_eq_getElem hlt) hf⟩
+  · exact ⟨r, by rw [fr.other j e]; exact h, hf⟩
+
+/-- The blob cache changed (refCounters monotone, closures keep their refCounter), the layers did not. -/
+theorem FInv.core {L : List Layer} {c c' : Core} {p : Option Nat} (f : FInv L c) (x : XInv L c.toks p)
+    (hrc : ∀ (j : Nat) (r : RC), c.rcs[j]? = some r → r.finDone = true → ∃ r', c'.rcs[j]? = some r' ∧ r'.finDone = true)
+    (htk : ∀ (tok : Nat) (tk : Tok), c.toks[tok]? = some tk → ∃ tk', c'.toks[tok]? = some tk' ∧ tk'.rc = tk.rc) :
+    FInv L c' := by
+  intro i l tk' hl hc htk'
+  obtain ⟨tk, htk0, _⟩ := x.btok i l hl
+  obtain ⟨tk'', h2, hrc2⟩ := htk _ tk htk0
+  rw [htk'] at h2; cases h2
+  obtain ⟨r, hr, hf⟩ := f i l tk hl hc htk0
+  rw [hrc2]
+  exact hrc _ r hr hf
+
+theorem toks_append_fwd (T : List Tok) (x : Tok) :
+    ∀ (tok : Nat) (tk : Tok), T[tok]? = some tk → ∃ tk', (T ++ [x])[tok]? = some tk' ∧ tk'.rc = tk.rc := by
+  intro tok tk h
+  exact ⟨tk, by rw [List.getElem?_append_left (List.getElem_of_getElem? h).1]; exact h, rfl⟩
+
+theorem toks_set_fwd (T : List Tok) (n : Nat) (t : Tok) (ht : T[n]? = some t) :
+    ∀ (tok : Nat) (tk : Tok), T[tok]? = some tk →
+      ∃ tk', (T.set n { t with once := true })[tok]? = some tk' ∧ tk'.rc = tk.rc := by
+  intro tok tk h
+  by_cases e : n = tok
+  · subst e
+    rw [ht] at h; cases h
+    exact ⟨_, List.getElem?_set_self (List.getElem_of_getElem? ht).1, rfl⟩
+  · exact ⟨tk, by rw [List.getElem?_set_ne e]; exact h, rfl⟩
+
+theorem FInv.done {L : List Layer} {t : TTL} {p : Option Nat} (f : FInv L t.core) (x : XInv L t.core.toks p)
+    {tok : Nat} {tk : Tok} (e : Bool) (ht : t.core.toks[tok]? = some tk) : FInv L (t.done tok e).1.core := by
+  refine f.core x (fun _ _ h hf => (TTL.done_frame e ht).finMono h hf) ?_
+  rw [TTL.done_toks e ht]
+  exact toks_set_fwd _ _ _ ht
+
+theorem FInv.evict {L : List Layer} {t : TTL} {p : Option Nat} (f : FInv L t.core) (x : XInv L t.core.toks p)
+    (k : Nat) : FInv L (t.evictLocked k).core := by
+  cases hm : t.m k with
+  | none => simpa [TTL.evictLocked, hm] using f
+  | some id =>
+    refine f.core x (fun _ _ h hf => (TTL.evict_frame hm).finMono h hf) ?_
+    rw [TTL.evictLocked_toks]
+    exact fun tok tk h => ⟨tk, h, rfl⟩
+
+theorem FInv.newTok {L : List Layer} {c : Core} {p : Option Nat} (f : FInv L c) (x : XInv L c.toks p)
+    (id : Nat) : FInv L (c.newTok id) :=
+  f.core x (fun _ _ h hf => (frame_newTok c id).finMono h hf) (toks_append_fwd _ _)
+
+theorem FInv.addNew {L : List Layer} {t : TTL} {p : Option Nat} (f : FInv L t.core) (x : XInv L t.core.toks p)
+    {k : Nat} (v : Nat) (hm : t.m k = none) : FInv L (t.add k v).1.core := by
+  rw [TTL.add_new _ hm]
+  have f1 : FInv L (t.core.newRc k v) := by
+    refine f.core x ?_ (fun tok tk h => ⟨tk, h, rfl⟩)
+    intro j r h hf
+    exact ⟨r, by simp only [Core.newRc]; rw [List.getElem?_append_left (List.getElem_of_getElem? h).1]; exact h, hf⟩
+  exact f1.newTok (p := p) x _
+
+theorem FInv.attach {L : List Layer} {c : Core} (f : FInv L c) (l : Layer) (hc : l.closed = false) :
+    FInv (L ++ [l]) c := by
+  intro i li tk hl hcl htk
+  rw [List.getElem?_append] at hl
+  split at hl
+  · exact f i li tk hl hcl htk
+  · have hi : i = L.length := by
+      cases hj' : i - L.length with
+      | zero => omega
+      | succ n => simp [hj'] at hl
+    subst hi; simp at hl; subst hl; rw [hc] at hcl; cases hcl
+
+/-- `layer.close`: the layer is marked closed and its closure is called with `evict = true`. -/
+theorem FInv.closeLayer {L : List Layer} {t : TTL} {p : Option Nat} (hr : Reach t) (f : FInv L t.core)
+    (x : XInv L t.core.toks p) {lid : Nat} {l l' : Layer} {tk : Tok} (hl : L[lid]? = some l) (ht : t.core.toks[l.blobTok]? = some tk)
+    (hb : l'.blobTok = l.blobTok) : FInv (L.set lid l') (t.done l.blobTok true).1.core := by
+  have hlt := (List.getElem_of_getElem? hl).1
+  have fd := f.done x true ht
+  intro i li tk' hli hc htk'
+  by_cases e : lid = i
+  · subst e
+    rw [List.getElem?_set_self hlt] at hli; cases hli
+    rw [hb, TTL.done_toks true ht, List.getElem?_set_self (List.getElem_of_getElem? ht).1] at htk'
+    cases htk'
+    show ∃ r, (t.done l.blobTok true).1.core.rcs[tk.rc]? = some r ∧ r.finDone = true
+    rw [TTL.done_true_core ht]
+    have hlt2 : tk.rc < (t.core.release l.blobTok).rcs.length := by
+      rw [(frame_release _ _ _ ht).len]
+      exact hr.inv.core.tokLt tk (List.mem_of_getElem? ht)
+    exact ⟨((t.core.release l.blobTok).rcs[tk.rc]).finalize,
+      by rw [fin_lookup, List.getElem?_eq_getElem hlt2]; simp, by simp⟩
+  · rw [List.getElem?_set_ne e] at hli
+    exact fd i li tk' hli hc htk'
+
 /-! ## E. what the callbacks and cache operations of the state leave untouched -/
 
 @[simp] theorem closeBlob_bc (s : State) (bid : Nat) : (closeBlob s bid).bc = s.bc := by
@@ -494,6 +610,7 @@ structure Inv (s : State) (p : Option Nat) : Prop where
   b : BInv s
   l : LInv s
   x : XInv s.layers s.bc.core.toks p
+  f : FInv s.layers s.bc.core
 
 theorem BInv.congr {s s' : State} (h : BInv s) (e1 : s'.bc = s.bc) (e2 : s'.blobs = s.blobs)
     (e3 : s'.httpDirs = s.httpDirs) : BInv s' :=
@@ -505,7 +622,8 @@ theorem LInv.congr {s s' : State} (h : LInv s) (e1 : s'.lc = s.lc) (e2 : s'.laye
 
 theorem Inv.init : Inv {} none :=
   ⟨⟨Reach.init, Link.init _ _, by intro i b h; simp at h, rfl⟩,
-   ⟨Reach.init, Link.init _ _, by intro i l h; simp at h, rfl⟩, XInv.init⟩
+   ⟨Reach.init, Link.init _ _, by intro i l h; simp at h, rfl⟩, XInv.init,
+   by intro i l tk h; simp at h⟩
 
 /-- Did the callback of `id` run between `c` and `c'`?  Under C10's invariant: yes iff the counter
 went from 0 to 1. -/
@@ -652,7 +770,7 @@ theorem Inv.lcFire {s : State} {p : Option Nat} (inv : Inv s p) {t' : TTL} {id :
     rw [closeLayer_open (s := { s with lc := t' }) hl hlc]
     have hlt := (List.getElem_of_getElem? hl).1
     obtain ⟨tk, htk, _⟩ := inv.x.btok id l hl
-    refine ⟨?_, ?_, ?_⟩
+    refine ⟨?_, ?_, ?_, ?_⟩
     · apply BInv.bcDone
       exact inv.b.congr rfl rfl rfl
     · refine LInv.congr (s := { s with lc := t', layers := s.layers.set id l.shut, fsDirs := s.fsDirs - 1 })
@@ -675,8 +793,10 @@ theorem Inv.lcFire {s : State} {p : Option Nat} (inv : Inv s p) {t' : TTL} {id :
         rw [countP_set_close Layer.closed s.layers id l _ hl hlc rfl, inv.l.dirs]
     · rw [bcDone_layers, bcDone_toks true (by exact htk)]
       exact inv.x.closeLayer hl htk rfl rfl
+    · rw [bcDone_layers, bcDone_bc]
+      exact FInv.closeLayer inv.b.reach inv.f inv.x hl htk rfl
   · simp only [hf, if_false]
-    exact ⟨inv.b.congr rfl rfl rfl, ⟨hr, inv.l.link.step_same fr hsame, inv.l.flags, inv.l.dirs⟩, inv.x⟩
+    exact ⟨inv.b.congr rfl rfl rfl, ⟨hr, inv.l.link.step_same fr hsame, inv.l.flags, inv.l.dirs⟩, inv.x, inv.f⟩
 
 theorem Inv.lcDone {s : State} {p : Option Nat} (inv : Inv s p) (tok : Nat) (e : Bool) :
     Inv (lcDone s tok e) p := by
@@ -694,15 +814,18 @@ theorem Inv.lcEvict {s : State} {p : Option Nat} (inv : Inv s p) (k : Nat) : Inv
     exact inv.lcFire (inv.l.reach.evict k) (TTL.evict_frame hm)
 
 theorem Inv.bcEvict {s : State} {p : Option Nat} (inv : Inv s p) (k : Nat) : Inv (bcEvict s k) p :=
-  ⟨inv.b.bcEvict k, inv.l.congr (by simp) (by simp) (by simp), by simpa using inv.x⟩
+  ⟨inv.b.bcEvict k, inv.l.congr (by simp) (by simp) (by simp), by simpa using inv.x,
+   by rw [bcEvict_layers, bcEvict_bc]; exact inv.f.evict inv.x k⟩
 
 /-- `blobR.done(true)` on the closure a running `Resolve` still holds. -/
 theorem Inv.bcDonePending {s : State} {tok : Nat} (inv : Inv s (some tok)) :
     Inv (bcDone s tok true) none := by
   obtain ⟨⟨t, ht, _⟩, _⟩ := inv.x.pend tok rfl
-  refine ⟨inv.b.bcDone _ _, inv.l.congr (by simp) (by simp) (by simp), ?_⟩
-  rw [bcDone_layers, bcDone_toks true ht]
-  exact inv.x.releasePending ht
+  refine ⟨inv.b.bcDone _ _, inv.l.congr (by simp) (by simp) (by simp), ?_, ?_⟩
+  · rw [bcDone_layers, bcDone_toks true ht]
+    exact inv.x.releasePending ht
+  · rw [bcDone_layers, bcDone_bc]
+    exact inv.f.done inv.x true ht
 
 /-! ## H. nothing is gained by the clean-up operations -/
 
@@ -857,17 +980,18 @@ theorem rbf_ok {s : State} {name : Nat} {o : Oracle} (h : o.bres = true) (hm : s
 
 theorem Inv.fixHttp {s : State} {p : Option Nat} (inv : Inv s p) :
     Inv { s with httpDirs := s.httpDirs + 1 - 1 } p :=
-  ⟨inv.b.congr rfl rfl (by simp only; omega), inv.l.congr rfl rfl rfl, inv.x⟩
+  ⟨inv.b.congr rfl rfl (by simp only; omega), inv.l.congr rfl rfl rfl, inv.x, inv.f⟩
 
 theorem Inv.fixFs {s : State} {p : Option Nat} (inv : Inv s p) :
     Inv { s with fsDirs := s.fsDirs + 1 - 1 } p :=
-  ⟨inv.b.congr rfl rfl rfl, inv.l.congr rfl rfl (by simp only; omega), inv.x⟩
+  ⟨inv.b.congr rfl rfl rfl, inv.l.congr rfl rfl (by simp only; omega), inv.x, inv.f⟩
 
 /-- `makeBlob` + `blobCache.Add` of a name that is not cached. -/
 theorem Inv.addBlob {s : State} (inv : Inv s none) {name : Nat} (hm : s.bc.m name = none) :
     Inv { s with httpDirs := s.httpDirs + 1, blobs := s.blobs ++ [({ name := name } : Blob)],
                  bc := (s.bc.add name s.blobs.length).1 } (some s.bc.core.toks.length) := by
-  refine ⟨⟨inv.b.reach.add _ _, inv.b.link.addNew hm _ rfl rfl, ?_, ?_⟩, inv.l.congr rfl rfl rfl, ?_⟩
+  refine ⟨⟨inv.b.reach.add _ _, inv.b.link.addNew hm _ rfl rfl, ?_, ?_⟩, inv.l.congr rfl rfl rfl, ?_,
+    inv.f.addNew inv.x _ hm⟩
   · intro i b hb
     simp only at hb
     rw [List.getElem?_append] at hb
@@ -889,7 +1013,8 @@ theorem Inv.getBlob {s : State} (inv : Inv s none) {name id : Nat} (hm : s.bc.m 
   have hr : Reach { s.bc with core := s.bc.core.newTok id } := by
     have := inv.b.reach.get name
     rwa [TTL.get_hit hm] at this
-  exact ⟨⟨hr, inv.b.link.newTok id, inv.b.flags, inv.b.dirs⟩, inv.l.congr rfl rfl rfl, inv.x.newTok id⟩
+  exact ⟨⟨hr, inv.b.link.newTok id, inv.b.flags, inv.b.dirs⟩, inv.l.congr rfl rfl rfl, inv.x.newTok id,
+    inv.f.newTok inv.x id⟩
 
 /-- `layerCache.Get` hit. -/
 theorem Inv.getLayer {s : State} {p : Option Nat} (inv : Inv s p) {name id : Nat} (hm : s.lc.m name = some id) :
@@ -897,13 +1022,14 @@ theorem Inv.getLayer {s : State} {p : Option Nat} (inv : Inv s p) {name id : Nat
   have hr : Reach { s.lc with core := s.lc.core.newTok id } := by
     have := inv.l.reach.get name
     rwa [TTL.get_hit hm] at this
-  exact ⟨inv.b.congr rfl rfl rfl, ⟨hr, inv.l.link.newTok id, inv.l.flags, inv.l.dirs⟩, inv.x⟩
+  exact ⟨inv.b.congr rfl rfl rfl, ⟨hr, inv.l.link.newTok id, inv.l.flags, inv.l.dirs⟩, inv.x, inv.f⟩
 
 /-- `newLayer` + `layerCache.Add` of a name that is not cached. -/
 theorem Inv.addLayer {s : State} {btok : Nat} (inv : Inv s (some btok)) {name : Nat} (hm : s.lc.m name = none) :
     Inv { s with fsDirs := s.fsDirs + 1, layers := s.layers ++ [({ name := name, blobTok := btok } : Layer)],
                  lc := (s.lc.add name s.layers.length).1 } none := by
-  refine ⟨inv.b.congr rfl rfl rfl, ⟨inv.l.reach.add _ _, inv.l.link.addNew hm _ rfl rfl, ?_, ?_⟩, ?_⟩
+  refine ⟨inv.b.congr rfl rfl rfl, ⟨inv.l.reach.add _ _, inv.l.link.addNew hm _ rfl rfl, ?_, ?_⟩, ?_,
+    inv.f.attach _ rfl⟩
   · intro i l hl
     simp only at hl
     rw [List.getElem?_append] at hl
